@@ -100,6 +100,19 @@ fn check_case(rep: &mut Report, text: &str, optimized: &[pest_meta::optimizer::O
             break;
         }
     }
+    // "completes identically under every larger limit": also the largest limits there are
+    if reached {
+        for big in [usize::MAX, usize::MAX / 2 + 1, u32::MAX as usize + 1] {
+            rep.count("evaluations");
+            rep.count("huge_limits_tried");
+            let (r_l, _, _) = parse_with(vm, rule, input, big);
+            if r_l != r_inf {
+                rep.violation(json!({"property":"C12","config":config_name(),"grammar":text,"rule":rule,"input":input,"limit":big.to_string(),"calls_needed":n,
+                    "why": "the parse completes under a small limit but not identically under a huge one", "expected": show(&r_inf), "observed": show(&r_l)}));
+                break;
+            }
+        }
+    }
     rep.add("limits_that_tripped", tripped);
     // The limit is a process-wide knob: somebody may change it while a parse is running. A parse that
     // started under limit L must still return the unlimited result or the limit error. The VM's
